@@ -384,6 +384,9 @@ def run(ctx):
     from . import c15
     reuse(ctx, c15.evidence_dtype_rule, ("C15.evid",), "C02smc", "precision rule shared with C15: per-step ratios narrowed to Python floats come back in the namespace's default width "
           "(float32 under torch), so the returned log-evidence and its error are not accurate to the requested float64")
+    # ---- derived weight quantities are functions of the current log-weights: nothing computed from log_w is cached across a recomputation
+    from . import cachecoh
+    cachecoh.rule(ctx, "C02.stale", ("aspire.samples",), "a weight-derived value (scaled weights, efficiency, ESS) read after compute_weights() still belongs to the previous log-weights")
     # ---- the three densities a weight is computed from are those of the same draw: the initial population is built row-aligned
     reuse(ctx, c10.init_rule, ("C10.init",), "C02init", "pairing rule shared with C10: log_w[i] = L + P - Q needs log_q[i] to be the proposal density of x[i]; a population whose "
           "coordinates are filtered by the prior mask while log_q is only truncated carries another draw's log_q in row i")
@@ -524,6 +527,10 @@ MUTANTS += [
 MUTANTS += [
     M("initial population keeps the proposal density of a different draw", "src/aspire/samplers/mcmc.py", "x, log_q = self.prior_flow.sample_and_log_prob(n_samples)",
       "x, _ = self.prior_flow.sample_and_log_prob(n_samples)\n            _, log_q = self.prior_flow.sample_and_log_prob(n_samples)", "C02init.init"),
+]
+MUTANTS += [
+    M("scaled weights cached on first use", "src/aspire/samples.py", "@property\n    def scaled_weights(self):", "@cached_property\n    def scaled_weights(self):", "C02.stale",
+      more=[("import math\n", "import math\nfrom functools import cached_property\n")]),
 ]
 NEUTRALS = [
     M("weight initialisation moved into a helper", _S, "super().__post_init__()\n\n        if all(", "super().__post_init__()\n        self._init_weights()\n\n    def _init_weights(self):\n        if all(", within="Samples"),
